@@ -10,6 +10,8 @@ import ScriggoV.Lemmas.LexCtxSim
 import ScriggoV.Lemmas.LexCtxRefine
 import ScriggoV.Lemmas.LexShowPreserve
 import ScriggoV.Lemmas.LexCtxAllScan
+import ScriggoV.Lemmas.JsCommentSpec
+import ScriggoV.Gen.LexCtxCases
 /-! # C06 — autoescaping confines every shown untrusted value to its syntactic slot
 
 **Layer 1** (every escaper keeps its output inside the slot). The reference scanners of the
@@ -190,6 +192,70 @@ inside a tag but is flagged by the tokenizer, is not) -/
 theorem tag_delims_replaced_partial : ∀ c ∈ tagDelims, c ≠ 32 → tagReplaced c = true := by decide
 
 theorem tag_space_not_replaced : tagReplaced 32 = false ∧ tagReplaced 60 = false := by decide
+
+/-! ## Layer 2 — the comment and string scanning of script / style content
+
+Three links. (1) The Go clauses themselves: `Gen/LexCtxCases.lean` is the statement-by-statement
+translation of the six clauses of `switch l.ctx` in lexer.scan for the contexts CSS, CSSString, JS,
+JSString, JSON, JSONString (which fields a byte changes and how far `p` advances), regenerated on
+every check; each is the hand-written case function of `Model/LexCtx.lean`, the model the theorems
+above are about. (2) The model against the reference: `js_comment_agree`. (3) The reference against
+the grammar: `js_block_comment_spec`, `js_line_comment_spec`. -/
+
+/-- `case ast.ContextJS:` of lexer.scan — end tag, line comment up to LF / CR, block comment up to
+`*/` (both bytes consumed), the openers `//` and `/*` (BOTH bytes consumed), quotes — is `caseJSP`. -/
+theorem lexer_js_case_regenerated (text : Bytes) (s : LexCtx.CSt) (c : UInt8) :
+    Gen.LexCtxCases.caseJS text s c = LexCtx.caseJSP text s c := rfl
+
+/-- `case ast.ContextJSString:` / `case ast.ContextJSONString:` — escape (a backslash takes the next
+byte with it only when that byte is the quote), closing quote, end tag — are `caseJSStringP`. -/
+theorem lexer_jsstring_case_regenerated (text : Bytes) (s : LexCtx.CSt) (c : UInt8) :
+    Gen.LexCtxCases.caseJSString text s c = LexCtx.caseJSStringP text s c Gen.LexTables.ContextJS s.quote ∧
+    Gen.LexCtxCases.caseJSONString text s c = LexCtx.caseJSStringP text s c Gen.LexTables.ContextJSON 0x22 :=
+  ⟨rfl, rfl⟩
+
+theorem lexer_json_case_regenerated (text : Bytes) (s : LexCtx.CSt) (c : UInt8) :
+    Gen.LexCtxCases.caseJSON text s c = LexCtx.caseJSONP text s c := rfl
+
+/-- `case ast.ContextCSS:` and `case ast.ContextCSSString:` are the two halves of `caseCSSP` -/
+theorem lexer_css_cases_regenerated (text : Bytes) (s : LexCtx.CSt) (c : UInt8) :
+    (s.ctx = Gen.LexTables.ContextCSS → Gen.LexCtxCases.caseCSS text s c = LexCtx.caseCSSP text s c) ∧
+    (s.ctx ≠ Gen.LexTables.ContextCSS → Gen.LexCtxCases.caseCSSString text s c = LexCtx.caseCSSP text s c) := by
+  constructor
+  · intro h; unfold LexCtx.caseCSSP; rw [if_pos h]; rfl
+  · intro h; unfold LexCtx.caseCSSP; rw [if_neg h]; rfl
+
+/-- **The lexer model's comment recogniser is the reference's**, for every delimiter-free prefix
+`p` of class `D`: at the hole the model is in its line-comment state exactly when the reference
+tokenizer is in a JavaScript line comment, in its block-comment state exactly when the reference is
+inside `/*` … (first) `*/`, in neither otherwise (`jsCommentOf`). -/
+theorem js_comment_agree (U : Lexer.Unicode) (p t : Bytes) (ht : LexCtx.startsDelim t)
+    (hfree : LexCtx.delimFree (p ++ t) p.length) (c : HtmlTok.Ctx) (u : Bool)
+    (habs : HtmlTok.abs Lexer.containsURL (HtmlTok.run p) = some (c, u)) :
+    (LexCtx.ctxAt U (p ++ t) p.length).jsComment = LexCtx.jsCommentOf (HtmlTok.run p) :=
+  LexCtx.jsComment_agree U p t ht hfree c u habs
+
+/-- **Block comment = `/*`, then the shortest text up to `*/`** (reference side, every byte string):
+`/*` opens it from code; after any text in which no `*/` occurs the reference is still inside —
+in particular after `/*/` —; and if `*/` does not occur in `body ++ "*"` the reference is back in
+code exactly after `body ++ "*/"`. -/
+theorem js_block_comment_spec (ro : Bool) (body : Bytes) :
+    [0x2F, 0x2A].foldl HtmlTok.jsStep (.code ro) = .blockC ∧
+    (∀ q : Bytes, HtmlTok.noClose q = true → HtmlTok.inBlock (q.foldl HtmlTok.jsStep .blockC) = true) ∧
+    (HtmlTok.noClose (body ++ [0x2A]) = true →
+      (body ++ [0x2A, 0x2F]).foldl HtmlTok.jsStep .blockC = .code true) :=
+  ⟨(HtmlTok.comment_openers ro).1, HtmlTok.blockComment_inside, HtmlTok.blockComment_closes body⟩
+
+example : HtmlTok.inBlock ([0x2F, 0x2A, 0x2F].foldl HtmlTok.jsStep (.code true)) = true := by decide
+example : HtmlTok.noClose [0x2F, 0x20, 0x64, 0x6F, 0x6E, 0x27, 0x74, 0x20, 0x2F, 0x2A] = true := by decide
+
+/-- **Line comment = `//` up to LF or CR** (reference side; the byte 0xE2, which starts U+2028 /
+U+2029, is outside class `D`: known finding js-line-comment-ls-ps) -/
+theorem js_line_comment_spec (ro : Bool) (l : Bytes) (h : ∀ c ∈ l, c ≠ 10 ∧ c ≠ 13 ∧ c ≠ 0xE2) :
+    [0x2F, 0x2F].foldl HtmlTok.jsStep (.code ro) = .lineC ∧ l.foldl HtmlTok.jsStep .lineC = .lineC ∧
+    HtmlTok.jsStep .lineC 10 = .code true ∧ HtmlTok.jsStep .lineC 13 = .code true :=
+  ⟨(HtmlTok.comment_openers ro).2, HtmlTok.lineComment_inside l h, HtmlTok.lineComment_closes.1,
+    HtmlTok.lineComment_closes.2⟩
 
 /-! ## Layer 3 — dispatch -/
 
